@@ -292,7 +292,11 @@ def gen_value(rng, data, depth, stats=None, sym=False):
     return object_class('FooBar', 2).partial(f0=data.s('leaf-str'))
   if k == 'exotic':     # values with a view extension of their own: oracle only
     e = rng.choice(['ref', 'diff'])
-    if e == 'ref': return p.Ref(rng.choice([lambda: object_class('Foo', 1)(f0=data.s('leaf-str')), lambda: {data.s('dict-key'): 1}])())
+    hostile_cls = lambda: object_class(data.s('class-name') if rng.random() < 0.7 else 'Foo', 1)
+    if e == 'ref': return p.Ref(rng.choice([lambda: hostile_cls()(f0=data.s('leaf-str')), lambda: {data.s('dict-key'): 1}, lambda: data.s('leaf-str'), lambda: Opaque(data.s('opaque-repr'))])())
+    if rng.random() < 0.5:
+      a_, b_ = hostile_cls(), hostile_cls()
+      return p.diff(a_(f0=data.s('leaf-str')), rng.choice([a_, b_])(f0=rng.choice([data.s('leaf-str'), 1])), mode=rng.choice(['diff', 'both']))
     return p.diff(p.Dict({'a': data.s('leaf-str'), 'b': [1, data.s('leaf-str')]}), p.Dict({'a': data.s('leaf-str'), 'c': 2}), mode=rng.choice(['diff', 'both']))
   n = rng.choice([0, 1, 1, 2, 2, 3])
   if k in ('dict', 'pgdict'):
@@ -388,6 +392,7 @@ OPTION_SPACE = [
     ('highlight', [None, 'fn']),
     ('lowlight', [None, 'fn']),
     ('extra_flags', [None, dict(hide_default_values=True), dict(hide_frozen=False, use_inferred=True)]),
+    ('title', [None, 'plain', 'hostile', 'empty']),
 ]
 DEFAULTS = {k: v[0] for k, v in OPTION_SPACE}
 
@@ -469,6 +474,10 @@ def resolve_options(sym, value, rng, data):
     chosen = [rng.choice(paths)] if unc == 'one' else [max(paths, key=len), rng.choice(paths)]
     chosen = [c for c in chosen if '$' not in c]
     kw['uncollapse'] = [utils.KeyPath(root + list(c)) for c in chosen]
+  tt = sym.get('title')
+  if tt == 'plain': kw['title'] = 'A plain title'
+  elif tt == 'hostile': kw['title'] = data.s('title')
+  elif tt == 'empty': kw['title'] = ''
   nm = sym['name']
   if nm == 'hostile': kw['name'] = data.s('root-name')
   elif nm == 'int': kw['name'] = 7
@@ -511,11 +520,12 @@ def model_options(kw, value=None):
           [table(ks, lambda r: r == 'label')] if ks else [],
           [table(inc)] if inc else [], [table(exc)] if exc else [],
           [([keylist(root)] if unc(kp(()), value, None) else []) + table(unc)] if unc else [],
-          [[[keylist(root + list(path)), color(kc(kp(path), v, parent))] for path, v, parent in nodes]] if kc else []]
+          [[[keylist(root + list(path)), color(kc(kp(path), v, parent))] for path, v, parent in nodes]] if kc else [],
+          trlib.opt(kw.get('title'))]
 
 MODELLED = {'name', 'root_path', 'enable_summary', 'enable_summary_for_str', 'max_summary_len_for_str', 'enable_summary_tooltip', 'enable_key_tooltip',
             'key_style', 'include_keys', 'exclude_keys', 'collapse_level', 'uncollapse', 'css_classes', 'summary_color', 'key_color',
-            'highlight', 'lowlight', 'extra_flags'}
+            'highlight', 'lowlight', 'extra_flags', 'title'}
 
 # ------------------------------------------------------------------------------------------------
 # cases: a value and keyword arguments, rebuilt deterministically from seeds (so a replay file is small)
@@ -573,7 +583,7 @@ def extra_options(extra, value, rng, data):
     keys = [k for k, _ in (child_items(value) or []) if not (isinstance(k, str) and any(c in k for c in '.[]'))]
     return dict(child_config={k: dict(collapse_level=None, enable_summary_tooltip=False) for k in keys[:1]} | {'__default__': dict(key_style='label')})
   raise ValueError(extra)
-EXTRAS = ['exotic', 'debug', 'title', 'color_fn', 'highlight', 'key_style_fn', 'include_fn', 'uncollapse_fn', 'hide_default', 'child_config']
+EXTRAS = ['exotic', 'debug', 'color_fn', 'highlight', 'key_style_fn', 'include_fn', 'uncollapse_fn', 'hide_default', 'child_config']
 
 def render(value, kw, content_only=True, scoped=()):
   """pg.to_html_str; the options named in `scoped` are given by an enclosing pg.view_options(...) scope instead of as arguments."""
@@ -1241,7 +1251,7 @@ def run(ctx):
     ctx.extra['full_product_cases'] = nprod
   nextra = 0
   for ex in EXTRAS:                           # options outside the model: oracle only
-    for _ in range(ctx.scale(12, 150)):
+    for _ in range(ctx.scale(12, 150) * (6 if ex == 'exotic' else 1)):
       sym = dict(DEFAULTS)
       if rng.random() < 0.5:
         sym.update(rng.choice(rows))
@@ -1249,7 +1259,7 @@ def run(ctx):
           if ex in ('include_fn', 'uncollapse_fn', 'key_style_fn'): sym[k] = DEFAULTS[k]
       specs.append(dict(kind='gen', sseed=rng.getrandbits(32), dseed=rng.getrandbits(32), hostile=True, sym=sym, depth=rng.choice([1, 2, 3]), extra=ex)); nextra += 1
   ctx.extra['options_modelled'] = sorted(MODELLED)
-  ctx.extra['options_oracle_only'] = ['exotic (pg.Ref, pg.Diff)', 'debug', 'title', 'child_config']
+  ctx.extra['options_oracle_only'] = ['exotic (pg.Ref, pg.Diff)', 'debug', 'child_config']
   ctx.log('%d cases (%d pairwise rows x %d values, %d oracle-only)' % (len(specs), len(rows), nvalues, nextra))
 
   # ---- run implementation, oracle, and collect model cases
